@@ -360,7 +360,11 @@ func genSliceArg(t *rapid.T) V {
 }
 
 func genConv(t *rapid.T) ConvCase {
-	f := rapid.SampledFrom(convFuncs).Draw(t, "f")
+	return genConvFor(t, rapid.SampledFrom(convFuncs).Draw(t, "f"))
+}
+
+// genConvFor draws an argument for the conversion builtin f.
+func genConvFor(t *rapid.T, f string) ConvCase {
 	var v V
 	switch f {
 	case "toRune", "toByteSlice", "toRuneSlice":
@@ -574,20 +578,34 @@ func refElem(target string, x interface{}) (interface{}, bool) {
 
 func convOracle(c ConvCase, o *h.Obs) *h.Fail {
 	s := newScript()
-	a := s.argExpr(c.A)
-	var x interface{}
-	if strings.HasPrefix(c.A.Prov, "go") {
-		x = s.hostValue(s.lastGo) // the very object the script sees (identity for pointers, channels)
-	} else {
-		x = goValue(c.A.V)
-	}
-	src := s.src(c.F + "(" + a + ")")
+	call, r, mask := convExpect(c, s, o)
+	src := s.src(call)
 	o.Key = s.key(src)
 	classesFor(o, c.F, c.A)
 
 	got, err := s.run(src)
 	if f := hostPanic(c.F, src, err); f != nil {
 		return f
+	}
+	o.Class("conv:%s:%s", c.F, r.class)
+	if !r.judge {
+		o.Class("conv:not_judged(no_crash_only)")
+		return nil
+	}
+	return convJudge(c.F, "", o.Key, got, err, r, mask)
+}
+
+// convExpect binds the argument of the call in s (host definitions and preparatory
+// statements on the way) and computes the Go reference for it: the text of the call
+// expression, the verdict of the reference and - for the typed-slice forms - the
+// elements that are compared.
+func convExpect(c ConvCase, s *script, o *h.Obs) (string, ref, []bool) {
+	a := s.argExpr(c.A)
+	var x interface{}
+	if strings.HasPrefix(c.A.Prov, "go") {
+		x = s.hostValue(s.lastGo) // the very object the script sees (identity for pointers, channels)
+	} else {
+		x = goValue(c.A.V)
 	}
 	rv := reflect.ValueOf(x)
 
@@ -721,13 +739,14 @@ func convOracle(c ConvCase, o *h.Obs) *h.Fail {
 	default:
 		panic("convOracle: " + c.F)
 	}
-	o.Class("conv:%s:%s", c.F, r.class)
-	if !r.judge {
-		o.Class("conv:not_judged(no_crash_only)")
-		return nil
-	}
+	return c.F + "(" + a + ")", r, mask
+}
+
+// convJudge compares the result of a judged conversion call with its reference. when
+// ("" or a suffix such as "-while-other-calls-run") goes into the clause of the signature.
+func convJudge(f, when, key string, got interface{}, err error, r ref, mask []bool) *h.Fail {
 	if err != nil {
-		return h.Failf("C19|"+c.F+"|unexpected-error|"+r.class, "source:\n%s\nGo reference: %s\nanko error: %v", o.Key, ank.Describe(r.want), err)
+		return h.Failf("C19|"+f+"|unexpected-error"+when+"|"+r.class, "source:\n%s\nGo reference: %s\nanko error: %v", key, ank.Describe(r.want), err)
 	}
 	okRes := false
 	if mask != nil {
@@ -745,7 +764,7 @@ func convOracle(c ConvCase, o *h.Obs) *h.Fail {
 		okRes = same(got, r.want)
 	}
 	if !okRes {
-		return h.Failf("C19|"+c.F+"|wrong-result|"+r.class, "source:\n%s\nGo reference: %s\nanko: %s", o.Key, ank.Describe(r.want), ank.Describe(got))
+		return h.Failf("C19|"+f+"|wrong-result"+when+"|"+r.class, "source:\n%s\nGo reference: %s\nanko: %s", key, ank.Describe(r.want), ank.Describe(got))
 	}
 	return nil
 }
@@ -754,7 +773,7 @@ func convOracle(c ConvCase, o *h.Obs) *h.Fail {
 
 type MisuseCase struct {
 	F    string `json:"f"`
-	Mode string `json:"mode"` // count | type | any | forms
+	Mode string `json:"mode"` // count | type | any | forms | rangetype
 	Args []Arg  `json:"args"`
 	// Form (mode forms): how the variadic builtin range is called with the integer arguments
 	// Ints: spread | go | gospread | defer | deferspread
@@ -814,6 +833,9 @@ func genMisuse(t *rapid.T) MisuseCase {
 		}
 		return c
 	}
+	if rapid.Uint64().Draw(t, "rangetype")%8 == 0 {
+		return genRangeWrongType(t)
+	}
 	f := rapid.SampledFrom(unaryNames).Draw(t, "f")
 	c := MisuseCase{F: f}
 	switch rapid.IntRange(0, 2).Draw(t, "mode") {
@@ -849,9 +871,128 @@ func genMisuse(t *rapid.T) MisuseCase {
 	return c
 }
 
+// genNotInt64 draws a value that under no reading is an int64 (mustReject("int64", v) holds).
+func genNotInt64(t *rapid.T) V {
+	switch rapid.IntRange(0, 7).Draw(t, "badk") {
+	case 0, 1, 2:
+		return V{K: "s", S: genStr(t)}
+	case 3:
+		return V{K: "b", B: rapid.Bool().Draw(t, "b")}
+	case 4:
+		return genList(t, 1)
+	case 5:
+		return genMap(t, 1)
+	default:
+		v := genTyped(t, 1)
+		return v
+	}
+}
+
+// genRangeWrongType: the variadic builtin range with one to three arguments of which at least
+// one cannot be an int64, at any position; every argument - wrong or fine - is a literal, a
+// variable, a host-defined variable, an element, a map entry or the result of a script function.
+func genRangeWrongType(t *rapid.T) MisuseCase {
+	c := MisuseCase{F: "range", Mode: "rangetype"}
+	if rapid.IntRange(0, 3).Draw(t, "spread") == 0 {
+		c.Form = "spread"
+	}
+	n := rapid.IntRange(1, 3).Draw(t, "n")
+	bad := rapid.IntRange(1, 1<<n-1).Draw(t, "bad")
+	if rapid.IntRange(0, 2).Draw(t, "one") > 0 {
+		bad = 1 << rapid.IntRange(0, n-1).Draw(t, "pos") // mostly one wrong argument
+	}
+	for i := 0; i < n; i++ {
+		var v V
+		if bad&(1<<i) != 0 {
+			v = genNotInt64(t)
+		} else {
+			v = V{K: "i", I: rapid.Int64Range(-5, 20).Draw(t, "int")}
+			if i == 2 && v.I == 0 {
+				v.I = 1
+			}
+		}
+		c.Args = append(c.Args, Arg{V: v, Prov: genProv(t, v)})
+	}
+	return c
+}
+
+// misuseRangeType: a range call with an argument that cannot be an int64 is an error, wherever the
+// argument stands and however it and the arguments after it are spelled.
+func misuseRangeType(c MisuseCase, o *h.Obs) *h.Fail {
+	if c.F != "range" || len(c.Args) < 1 || len(c.Args) > 3 || (c.Form != "" && c.Form != "spread") {
+		o.Excluded = "malformed_case"
+		return nil
+	}
+	s := newScript()
+	parts := make([]string, len(c.Args))
+	var wrong []string
+	lastWrong := -1
+	for i, a := range c.Args {
+		parts[i] = s.argExpr(a)
+		if mustReject("int64", a.V) {
+			wrong = append(wrong, kindLabel(a.V))
+			lastWrong = i
+		}
+	}
+	if lastWrong < 0 {
+		o.Excluded = "malformed_case"
+		return nil
+	}
+	call := "range(" + strings.Join(parts, ", ") + ")"
+	if c.Form == "spread" {
+		call = "range([" + strings.Join(parts, ", ") + "]...)"
+	}
+	src := s.src(call)
+	o.Key = s.key(src)
+	o.NonTrivial = true
+	o.Class("builtin:range")
+	o.Class("misuse:mode=rangetype")
+	o.Class("misuse:rangetype:argc=%d", len(c.Args))
+	o.Class("misuse:rangetype:wrong_arguments=%d", len(wrong))
+	o.Class("misuse:rangetype:wrong_kind=" + wrong[0])
+	if c.Form == "spread" {
+		o.Class("misuse:rangetype:spread_list")
+	}
+	if lastWrong < len(c.Args)-1 {
+		o.Class("misuse:rangetype:fine_argument_after_the_wrong_one")
+		for _, a := range c.Args[lastWrong+1:] {
+			o.Class("misuse:rangetype:following_argument_prov=" + a.Prov)
+		}
+	} else {
+		o.Class("misuse:rangetype:wrong_argument_last")
+	}
+	for i, a := range c.Args {
+		if mustReject("int64", a.V) {
+			o.Class("misuse:rangetype:wrong_argument_prov=" + a.Prov)
+			o.Class("misuse:rangetype:wrong_position=%d", i)
+		}
+	}
+	got, err := s.run(src)
+	if f := hostPanic("misuse:range", src, err); f != nil {
+		return f
+	}
+	if err == nil {
+		form := "plain"
+		if c.Form == "spread" {
+			form = "spread"
+		}
+		cat := wrong[0] // string | bool | slice | map
+		if strings.HasPrefix(cat, "[]") {
+			cat = "slice"
+		} else if strings.HasPrefix(cat, "map[") {
+			cat = "map"
+		}
+		return h.Failf("C19|misuse|missing-error|wrong-type|range|"+form+"|"+cat, "source:\n%s\nan argument of range cannot be an int64 (%s); expected an error, got %s", o.Key, strings.Join(wrong, ", "), ank.Describe(got))
+	}
+	return nil
+}
+
 func misuseOracle(c MisuseCase, o *h.Obs) *h.Fail {
 	if c.Mode == "forms" {
 		return misuseForms(c, o)
+	}
+	if c.Mode == "rangetype" {
+		return misuseRangeType(c, o)
 	}
 	s := newScript()
 	parts := make([]string, len(c.Args))
